@@ -28,9 +28,14 @@ func (f *Field[T]) reduce(a *Element[T], strict bool) *Element[T] {
 	//   - in strict case and element was not recently reduced (even if it has no overflow)
 	//   - in non-strict case and the element has overflow
 
-	// sanity check
-	if _, aConst := f.constantValue(a); aConst {
-		panic("trying to reduce a constant, which happen to have an overflow flag set")
+	// a constant is reduced at compile time and the result is canonical. We
+	// reach here in the strict case (constants are not marked as reduced) or
+	// when the constant has overflow set (e.g. a product of constants
+	// computed by [Field.MulNoReduce]).
+	if v, aConst := f.constantValue(a); aConst {
+		ret := newConstElement[T](v.Mod(v, f.fParams.Modulus()), false)
+		ret.modReduced = true
+		return ret
 	}
 	// slow path - use hint to reduce value
 	return f.mulMod(a, f.One(), 0, nil)
